@@ -277,6 +277,39 @@ CLAIMED = {
                 "build results and exits.",
         "technique": "Coq proof (segment-level invariant over all schedules of a micro-step model) + forced-schedule correspondence with real threads by vm_compute",
     },
+    "C14": {
+        "text": "Theorem C14_accounting_every_schedule (Props/C14.v) over a micro-step model of node lookup / insert-if-absent, "
+                "concurrency inc/dec, the bucket lookup of the leap array with its two-store reset, and the counter adds, with "
+                "threads running from one scheduling point of the library to the next: for every thread count, program of builds "
+                "(any batch, inbound or not) and exits, start condition (brand-new resource / used 60 s earlier / used in the "
+                "current bucket) and every schedule with any clock advances: all threads finish, every entry holds the one node the "
+                "map holds, in-flight = built - exited on the resource node and the inbound node, pass / complete / rt totals never "
+                "exceed what was recorded and equal it when no bucket roll-over is involved. C14_one_node; C14_all_threads_finish; "
+                "C14_check_then_insert_refuted (the code before the fix puts two first-touch threads on two nodes); "
+                "C14_rollover_race_loses (a roll-over race really loses events, so exactness cannot be extended to it).",
+        "design_ref": "DESIGN.md §6 C14",
+        "note": "Trusted: Coq kernel + VM (closed under the global context); the cooperative scheduler of the harness and the placement of the "
+                "scheduling points (node-map miss, bucket lookup loop, inside reset_bucket, counter add, concurrency inc/dec); "
+                "preemption inside a micro-step (e.g. between the stamp test and the stamp store of one bucket lookup) and "
+                "memory orderings weaker than SeqCst are not modelled; the model is compared with real threads under forced "
+                "schedules: whole point trace, node identity, every round trip, final totals.",
+        "technique": "Coq proof (invariants over all schedules of a micro-step model) + forced-schedule correspondence with real threads by vm_compute",
+    },
+    "C08": {
+        "text": "Theorems in Props/C08.v over a binary64-exact model of WarmUpCalculator (Flocq): stored tokens never exceed the "
+                "maximum for every rule and history; the warm-up range is never empty; refilling never overflows; below the "
+                "warning line the allowance is exactly the threshold; while the previous interval passed at least floor(q/c) a new "
+                "second only drains; a long enough idle period refills to the maximum (cold again); and, with all roundings, the "
+                "allowance is antitone in the stored tokens (C08_allowance_antitone_in_tokens). The numeric clauses of the property "
+                "(allowance between about q/c and q, admitted per window at most q, monotone ramp to q within 2p+2 s, cold after 2p s "
+                "idle) are an executable predicate evaluated on every generated trace of the implementation (Spec/C08Spec.v).",
+        "design_ref": "DESIGN.md §6 C08",
+        "note": "Partial: the numeric clauses are checked on traces, not proved for all inputs (they depend on a chain of binary64 "
+                "roundings); two degenerate parameter regions are recorded as known findings (threshold / cold factor below one "
+                "request; period * threshold beyond u64). Trusted: Coq kernel + VM; stdlib classical axioms via Flocq; binary64 "
+                "arithmetic as formalised by Flocq equals the CPU's (every allowed threshold is compared bit-for-bit).",
+        "technique": "Coq proof (token-bucket invariants; float monotonicity via Flocq) + bit-exact correspondence and trace predicate by vm_compute",
+    },
 }
 
 REASON_TODO = "not yet covered by the Coq development in this revision (planned, see DESIGN.md §6); no check is claimed"
